@@ -56,7 +56,7 @@ def configs(n):
 def gen_cases(tier, seed):
     i = 0
     if tier == "quick":
-        plan = [(2, 20, 8), (3, 40, 10), (4, 3, 10)]
+        plan = [(2, 20, 8), (3, 40, 10), (4, 5, 12)]
     else:
         plan = [(2, 60, 12), (3, 200, 12), (4, 60, 12)]
     for n, reps, k in plan:
@@ -65,6 +65,8 @@ def gen_cases(tier, seed):
                 yield {"id": "e%d" % i, "n": n, "cfg": cfg, "cfg_id": "%d:%d" % (n, ci), "k": k,
                        "seed": env.derive_seed(seed, ID, n, ci, rep), "nested": rep % 4 == 3}
                 i += 1
+    for j, name in enumerate(DIRECTED):
+        yield {"id": "d%d" % j, "directed": j}
     # sampled n = 5 and purely random histories on 4 spaces
     m = 150 if tier == "quick" else 6000
     rnd = random.Random(env.derive_seed(seed, ID, "n5"))
@@ -77,6 +79,9 @@ def gen_cases(tier, seed):
                "seed": env.derive_seed(seed, ID, "n5", j), "nested": j % 3 == 0}
 
 
+DIRECTED = ["B", "D", "E", "G", "U", "II", "X"]       # regression probes (findings/witnesses.py)
+
+
 def mk_cell_op(opname, space, name, k, rnd):
     lam = rnd.random() < 0.3
     body = rnd.choice(["x + %d" % k, "x + %d + r1" % k, "x + %d + (c1(0) if %r != 'c1' else 0)" % (k, name)])
@@ -85,7 +90,7 @@ def mk_cell_op(opname, space, name, k, rnd):
 
 
 def expand(case):
-    if "ops" in case:
+    if "ops" in case or "directed" in case:
         return case
     rnd = random.Random(case["seed"])
     n, cfg = case["n"], case["cfg"]
@@ -242,6 +247,12 @@ def expected(w, sp):
 
 def run_case(case):
     case = expand(case)
+    if "directed" in case:
+        from . import c12
+        r = c12._directed(DIRECTED[case["directed"]])
+        r["case"] = case
+        r["counters"]["configs"] = 0
+        return r
     reset_session()
     w = World("M", probe=False)
     vio = []
@@ -380,5 +391,7 @@ def finalize(cov, results):
 
 
 def shrink(case, violations, deadline):
+    if "directed" in case:
+        return None
     from ..shrink import shrink_ops
     return shrink_ops(expand(case), run_case, violations, deadline)
